@@ -6,14 +6,6 @@
 -/
 import StVerif.Lemmas.UtfString
 import StVerif.Lemmas.UtfLen
-import StVerif.Lemmas.KernelBridge
-import StVerif.Lemmas.KernelLoops
-import StVerif.Lemmas.KernelLoopsUtf32
-import StVerif.Lemmas.KernelLoopsUtf8
-import StVerif.Lemmas.KernelLoopsMisc
-import StVerif.Lemmas.KernelLoopsLatin1
-import StVerif.Lemmas.KernelLoopsValidate
-import StVerif.Lemmas.KernelLoopsCleanup
 
 namespace StVerif.Props.C03
 open StVerif StVerif.Utf StVerif.Generated StVerif.Lemmas.Utf
@@ -92,158 +84,5 @@ theorem string_to_total (dst : Enc) (subst : Bool) (xs : List Nat) (hb : Bytes x
 example : convert .utf8 .utf16 .checkValidity true (some [0xF4, 0x90, 0x80, 0x80]) = .throw .unicodeError := by decide
 example : convert .utf8 .utf16 .substituteInvalid true (some [0xF4, 0x90, 0x80, 0x80]) = .ok [0xFFFD] := by decide
 example : convert .utf16 .utf8 .substituteInvalid true (some [0xD800]) = .ok [0xEF, 0xBF, 0xBD] := by decide
-
-/-! ### tie to the source: the decoding steps as translated from the C++ on every run
-
-`Generated.Kernels.extract_utf8 / extract_utf16` are written by tools/gen_kernels.py from the clang AST of
-include/st_utf_conv_priv.h; a load is `rd mem i`, a fault outside the source.  These theorems are about those
-translated functions, so they are re-checked against what the code says now. -/
-
-/-- every decoding step started inside the source stays inside it: no load at or beyond `end`, for every source and
-    every position (the machine-level half of "never reads outside the input" that the list model cannot state) -/
-theorem decode_steps_read_inside (mem : List Nat) (p : Nat) (hp : p < mem.length) :
-    StVerif.Cxx.isOk (Kernels.extract_utf8 mem p mem.length) = true ∧
-    StVerif.Cxx.isOk (Kernels.extract_utf16 mem p mem.length) = true :=
-  ⟨KernelBridge.extract_utf8_ok mem p hp, KernelBridge.extract_utf16_ok mem p hp⟩
-
-/-- every step advances by at least one unit and never past the end, so each `while (sp < ep)` loop over it terminates
-    within `size` iterations -/
-theorem decode_steps_progress (mem : List Nat) (p v p' : Nat) (hp : p < mem.length) :
-    (Kernels.extract_utf8 mem p mem.length = .ok (v, p') → p < p' ∧ p' ≤ mem.length) ∧
-    (Kernels.extract_utf16 mem p mem.length = .ok (v, p') → p < p' ∧ p' ≤ mem.length) :=
-  ⟨fun h => let ⟨a, b, _⟩ := KernelBridge.extract_utf8_sound mem p v p' hp h; ⟨a, b⟩,
-   fun h => let ⟨a, b, _⟩ := KernelBridge.extract_utf16_sound mem p v p' hp h; ⟨a, b⟩⟩
-
-/-- the whole decoding loop over the translated steps is the model's decoder (about which every theorem above is
-    proved), for every source -/
-theorem translated_decoders_are_model (mem : List Nat) :
-    KernelBridge.stepLoop Kernels.extract_utf8 mem (mem.length + 1) 0 = .ok (decodeUtf8 mem) ∧
-    KernelBridge.stepLoop Kernels.extract_utf16 mem (mem.length + 1) 0 = .ok (decodeUtf16 mem) :=
-  ⟨KernelBridge.utf8_loop_eq mem, KernelBridge.utf16_loop_eq mem⟩
-
-/-- the translated per-character sizing and writing functions are the model's: what the measuring pass counts is what
-    the filling pass stores, in the code as translated now -/
-theorem translated_writers_are_model (ch : Nat) :
-    Kernels.utf8_measure ch = .ok (utf8Measure ch) ∧ Kernels.utf16_measure ch = .ok (utf16Measure ch) ∧
-    Kernels.write_utf8 ch = .ok (match writeUtf8 ch with | some us => ((0 : Int), us) | none => ((4 : Int), [])) ∧
-    Kernels.write_utf16 ch = .ok (match writeUtf16 ch with | some us => ((0 : Int), us) | none => ((4 : Int), [])) :=
-  ⟨KernelBridge.utf8_measure_eq ch, KernelBridge.utf16_measure_eq ch, KernelBridge.write_utf8_eq ch, KernelBridge.write_utf16_eq ch⟩
-
-example : KernelBridge.stepLoop Kernels.extract_utf8 [0x41, 0xE2, 0x82, 0xAC, 0xF0, 0x9F] 7 0 = .ok [0x41, 0x20AC, 0x400001, 0x400003] := by
-  decide
-
-/-! ### tie to the source, whole loops: the two passes of every conversion as translated from the C++ on every run
-
-`Generated.Kernels.<x>_measure_from_<y>` / `<x>_convert_from_<y>` and `validate_utf8` are the loops of
-include/st_utf_conv_priv.h as tools/gen_kernels.py translates them (a loop is a recursive function over a fuel
-argument, a load outside the source is a fault, the output pointer is the list of units stored).  The source is `mem`,
-read from index 0 to `mem.length`; any fuel above the length gives the same result. -/
-
-open StVerif.KernelBridge in
-/-- the nine translated measuring passes are the model's `measure` (no load outside the source, no wrap-around below
-    2^62 units) -/
-theorem translated_measure_is_model (mem : List Nat) (fuel : Nat) (hf : mem.length < fuel) (hl : 4 * mem.length < 2 ^ 64) :
-    Kernels.utf8_measure_from_utf16 mem fuel 0 false mem.length = .ok (Utf.measure .utf16 .utf8 mem) ∧
-    Kernels.utf8_measure_from_utf32 mem fuel 0 false mem.length = .ok (Utf.measure .utf32 .utf8 mem) ∧
-    Kernels.utf16_measure_from_utf8 mem fuel 0 false mem.length = .ok (Utf.measure .utf8 .utf16 mem) ∧
-    Kernels.utf16_measure_from_utf32 mem fuel 0 false mem.length = .ok (Utf.measure .utf32 .utf16 mem) ∧
-    Kernels.utf32_measure_from_utf8 mem fuel 0 false mem.length = .ok (Utf.measure .utf8 .utf32 mem) ∧
-    Kernels.utf32_measure_from_utf16 mem fuel 0 false mem.length = .ok (Utf.measure .utf16 .utf32 mem) ∧
-    Kernels.utf8_measure_from_latin_1 mem fuel 0 false mem.length = .ok (Utf.measure .latin1 .utf8 mem) ∧
-    Kernels.latin_1_measure_from_utf8 mem fuel 0 false mem.length = .ok (Utf.measure .utf8 .latin1 mem) ∧
-    Kernels.latin_1_measure_from_utf16 mem fuel 0 false mem.length = .ok (Utf.measure .utf16 .latin1 mem) :=
-  ⟨utf8_measure_from_utf16_eq mem fuel hf hl, utf8_measure_from_utf32_eq mem fuel hf hl,
-   utf16_measure_from_utf8_eq mem fuel hf (by omega), utf16_measure_from_utf32_eq mem fuel hf (by omega),
-   utf32_measure_from_utf8_eq mem fuel hf (by omega), utf32_measure_from_utf16_eq mem fuel hf (by omega),
-   utf8_measure_from_latin_1_eq mem fuel hf (by omega), latin_1_measure_from_utf8_eq mem fuel hf (by omega),
-   latin_1_measure_from_utf16_eq mem fuel hf (by omega)⟩
-
-open StVerif.KernelBridge in
-/-- the translated filling passes whose source is UTF-8, UTF-32 or Latin-1 are the model's `fill` over the model's
-    decoder, in every mode: same units stored, same error code returned, same assertion raised -/
-theorem translated_fill_is_model (mem : List Nat) (m : Mode) (subst : Bool) (fuel : Nat) (hf : mem.length < fuel) :
-    Kernels.utf16_convert_from_utf8 mem fuel 0 mem.length (modeCode m) = fillResult (fill (stepCh .utf8 .utf16 m subst) (decode .utf8 mem)) ∧
-    Kernels.utf32_convert_from_utf8 mem fuel 0 mem.length (modeCode m) = fillResult (fill (stepCh .utf8 .utf32 m subst) (decode .utf8 mem)) ∧
-    Kernels.utf8_convert_from_utf32 mem fuel 0 mem.length (modeCode m) = fillResult (fill (stepCh .utf32 .utf8 m subst) (decode .utf32 mem)) ∧
-    Kernels.utf16_convert_from_utf32 mem fuel 0 mem.length (modeCode m) = fillResult (fill (stepCh .utf32 .utf16 m subst) (decode .utf32 mem)) ∧
-    Kernels.latin_1_convert_from_utf8 mem fuel 0 mem.length (modeCode m) (if subst then 1 else 0)
-      = fillResult (fill (stepCh .utf8 .latin1 m subst) (decode .utf8 mem)) ∧
-    Kernels.latin_1_convert_from_utf32 mem fuel 0 mem.length (modeCode m) (if subst then 1 else 0)
-      = fillResult (fill (stepCh .utf32 .latin1 m subst) (decode .utf32 mem)) ∧
-    Kernels.utf8_convert_from_latin_1 mem fuel 0 mem.length = .ok (fill (stepCh .latin1 .utf8 m subst) (decode .latin1 mem)).out ∧
-    Kernels.utf16_convert_from_latin_1 mem fuel 0 mem.length = .ok (fill (stepCh .latin1 .utf16 m subst) (decode .latin1 mem)).out ∧
-    Kernels.utf32_convert_from_latin_1 mem fuel 0 mem.length = .ok (fill (stepCh .latin1 .utf32 m subst) (decode .latin1 mem)).out :=
-  ⟨utf16_convert_from_utf8_eq mem m subst fuel hf, utf32_convert_from_utf8_eq mem m subst fuel hf,
-   utf8_convert_from_utf32_eq mem m subst fuel hf, utf16_convert_from_utf32_eq mem m subst fuel hf,
-   latin_1_convert_from_utf8_eq mem m subst fuel hf, latin_1_convert_from_utf32_eq mem m subst fuel hf,
-   utf8_convert_from_latin_1_eq mem m subst fuel hf, utf16_convert_from_latin_1_eq mem m subst fuel hf,
-   utf32_convert_from_latin_1_eq mem m subst fuel hf⟩
-
-open StVerif.KernelBridge in
-/-- the same for the three filling passes whose source is UTF-16 (units below 2^16, as `char16_t` guarantees) -/
-theorem translated_fill_is_model_utf16 (mem : List Nat) (hu : ∀ u ∈ mem, u < 65536) (m : Mode) (subst : Bool) (fuel : Nat)
-    (hf : mem.length < fuel) :
-    Kernels.utf8_convert_from_utf16 mem fuel 0 mem.length (modeCode m) = fillResult (fill (stepCh .utf16 .utf8 m subst) (decode .utf16 mem)) ∧
-    Kernels.utf32_convert_from_utf16 mem fuel 0 mem.length (modeCode m) = fillResult (fill (stepCh .utf16 .utf32 m subst) (decode .utf16 mem)) ∧
-    Kernels.latin_1_convert_from_utf16 mem fuel 0 mem.length (modeCode m) (if subst then 1 else 0)
-      = fillResult (fill (stepCh .utf16 .latin1 m subst) (decode .utf16 mem)) :=
-  ⟨utf8_convert_from_utf16_eq mem m subst hu fuel hf, utf32_convert_from_utf16_eq mem m subst hu fuel hf,
-   latin_1_convert_from_utf16_eq mem m subst hu fuel hf⟩
-
-open StVerif.KernelBridge in
-/-- `validate_utf8` as translated never reads outside the source and returns the model's verdict -/
-theorem translated_validator_is_model (mem : List Nat) (fuel : Nat) (hf : mem.length < fuel) :
-    Kernels.validate_utf8 mem fuel 0 mem.length = .ok ((validateUtf8 mem : Nat) : Int) :=
-  validate_utf8_eq mem fuel hf
-
-open StVerif.KernelBridge in
-/-- End to end, about the translated code alone (the model is only the vehicle of the proof): whatever the translated
-    UTF-16 -> UTF-8 filling pass stores - in any mode, also when it stops with an error - is at most what the translated
-    measuring pass counted, so the fill never writes past the buffer sized by the measure. -/
-theorem translated_two_pass_safe_utf16_utf8 (mem : List Nat) (hu : ∀ u ∈ mem, u < 65536) (m : Mode) (fuel : Nat)
-    (hf : mem.length < fuel) (hl : 4 * mem.length < 2 ^ 64) (code : Int) (out : List Nat)
-    (h : Kernels.utf8_convert_from_utf16 mem fuel 0 mem.length (modeCode m) = .ok (code, out)) :
-    ∃ n, Kernels.utf8_measure_from_utf16 mem fuel 0 false mem.length = .ok n ∧ out.length ≤ n := by
-  refine ⟨_, utf8_measure_from_utf16_eq mem fuel hf hl, ?_⟩
-  rw [utf8_convert_from_utf16_eq mem m true hu fuel hf] at h
-  have hle := fill_le_measure .utf16 .utf8 (by decide) m true mem hu
-  unfold fillResult at h
-  split at h <;> first | (cases h; exact hle) | (cases h)
-
-open StVerif.KernelBridge in
-/-- the same for UTF-8 -> UTF-16 (bytes below 256) -/
-theorem translated_two_pass_safe_utf8_utf16 (mem : List Nat) (hu : ∀ u ∈ mem, u < 256) (m : Mode) (fuel : Nat)
-    (hf : mem.length < fuel) (hl : 4 * mem.length < 2 ^ 64) (code : Int) (out : List Nat)
-    (h : Kernels.utf16_convert_from_utf8 mem fuel 0 mem.length (modeCode m) = .ok (code, out)) :
-    ∃ n, Kernels.utf16_measure_from_utf8 mem fuel 0 false mem.length = .ok n ∧ out.length ≤ n := by
-  refine ⟨_, utf16_measure_from_utf8_eq mem fuel hf (by omega), ?_⟩
-  rw [utf16_convert_from_utf8_eq mem m true fuel hf] at h
-  have hle := fill_le_measure .utf8 .utf16 (by decide) m true mem hu
-  unfold fillResult at h
-  split at h <;> first | (cases h; exact hle) | (cases h)
-
-open StVerif.KernelBridge in
-/-- and for UTF-32 -> UTF-8 (the direction where a unit above 10FFFF is counted as a 3-byte substitute by the measure) -/
-theorem translated_two_pass_safe_utf32_utf8 (mem : List Nat) (hu : ∀ u ∈ mem, u < 2 ^ 32) (m : Mode) (fuel : Nat)
-    (hf : mem.length < fuel) (hl : 4 * mem.length < 2 ^ 64) (code : Int) (out : List Nat)
-    (h : Kernels.utf8_convert_from_utf32 mem fuel 0 mem.length (modeCode m) = .ok (code, out)) :
-    ∃ n, Kernels.utf8_measure_from_utf32 mem fuel 0 false mem.length = .ok n ∧ out.length ≤ n := by
-  refine ⟨_, utf8_measure_from_utf32_eq mem fuel hf hl, ?_⟩
-  rw [utf8_convert_from_utf32_eq mem m true fuel hf] at h
-  have hle := fill_le_measure .utf32 .utf8 (by decide) m true mem hu
-  unfold fillResult at h
-  split at h <;> first | (cases h; exact hle) | (cases h)
-
-example : Kernels.utf8_convert_from_utf16 [0x41, 0xD83D, 0xDE00, 0xDC00] 5 0 4 2 = .ok ((2 : Int), [0x41, 0xF0, 0x9F, 0x98, 0x80]) := by
-  decide
-
-open StVerif.KernelBridge in
-/-- `cleanup_utf8` (the repairer behind `substitute_invalid` for `ST::string`) as translated from the C++ on every run:
-    both passes complete without a load outside the source, the sizing pass (null output) returns exactly the number of
-    units the filling pass stores, and what is stored is the model's `cleanupUtf8` - for every source below 2^62 bytes -/
-theorem translated_repairer_is_model (mem : List Nat) (fuel : Nat) (hf : mem.length < fuel) (hl : 3 * mem.length < 2 ^ 64) :
-    Kernels.cleanup_utf8 mem fuel false 0 mem.length = .ok ((cleanupUtf8 mem).length, cleanupUtf8 mem) ∧
-    Kernels.cleanup_utf8 mem fuel true 0 mem.length = .ok ((cleanupUtf8 mem).length, []) :=
-  cleanup_utf8_eq mem fuel hf hl
 
 end StVerif.Props.C03
